@@ -491,6 +491,10 @@ fn run_case(tw: &Twin, tm: &Tmpl, val: &Pv, path: Path, table: &str, rep: &mut R
     let l2 = render_literal(tm, table, &p2);
     let direct_only = !val.expressible && tm.slots.contains(&Slot::Val);
     let (b1, b2) = if direct_only {
+        // no literal twin, but keep the schemas of the twins in step
+        if let (true, Some(d)) = (two, &dd) {
+            let _ = exec(db_, d);
+        }
         (None, None)
     } else {
         let b1 = exec(db_, &l1);
@@ -515,7 +519,7 @@ fn run_case(tw: &Twin, tm: &Tmpl, val: &Pv, path: Path, table: &str, rep: &mut R
         } else if res_class_eq(&a1, b1).is_some() {
             // diverged already at the first execution: that is the prepared-first case's verdict; stop here
             rep.pruned(1);
-            return None; // (the DDL already ran in both twins)
+            return None;
         }
         if let (Some(a2), Some(b2)) = (&a2, &b2) {
             if let Some(w) = res_class_eq(a2, b2) {
